@@ -156,6 +156,7 @@ class Schema:
         self.mutation = None
         self.subscription = None
         self.explicit_schema_def = False
+        self.schema_directives = []   # [(name, args)] applied to the schema definition
         self.custom_default_resolver = False
         self.custom_default_type_resolver = False
 
@@ -350,11 +351,11 @@ def print_schema_def(s):
         parts.append("  mutation: " + s.mutation)
     if s.subscription:
         parts.append("  subscription: " + s.subscription)
-    return "schema {\n" + "\n".join(parts) + "\n}"
+    return "schema" + print_directives(getattr(s, "schema_directives", [])) + " {\n" + "\n".join(parts) + "\n}"
 
 
 def needs_schema_def(s):
-    return (s.explicit_schema_def or s.query != "Query"
+    return (s.explicit_schema_def or getattr(s, "schema_directives", []) or s.query != "Query"
             or (s.mutation and s.mutation != "Mutation")
             or (s.subscription and s.subscription != "Subscription"))
 
@@ -418,6 +419,7 @@ class GenOpts:
         self.rename_roots = 0.15
         self.p_gate = 0.0                 # @vtgate on arguments / fields (scheduler suspension points)
         self.p_covariant = 0.15           # implementer's field type is a subtype of the interface's
+        self.p_schema_pass = 0.0          # @vtpass on the schema: pass-through on_schema_execution / on_schema_subscription
         self.__dict__.update(kw)
 
 
@@ -606,6 +608,11 @@ def gen_schema(rng, opts=None):
             m.fields[f.name] = f
     if rng.random() < 0.1:
         s.explicit_schema_def = True
+    if o.p_schema_pass and rng.random() < o.p_schema_pass:
+        # a schema-level directive whose hooks only forward the request (positionally or by keyword): transparent
+        d = s.directives["vtpass"] = DirectiveDef("vtpass", ["SCHEMA"])
+        d.impl = "pass:" + rng.choice(["positional", "keyword"])
+        s.schema_directives = [("vtpass", [])]
 
     # resolver / materialisation annotations
     for t in s.types.values():
